@@ -34,6 +34,7 @@ let num s = n_of_int (int_of_string s)
 let run_case (toks : string list) : n list option =
   match toks with
   | ["PKT"; h] -> run_packet (bytes_of_tok h)
+  | ["P12"; h] -> run_packet_c12 (bytes_of_tok h)
   | ["AF"; h] -> run_af (bytes_of_tok h)
   | k :: _ -> failwith ("unknown case kind " ^ k)
   | [] -> failwith "empty case"
